@@ -104,7 +104,7 @@ def cases(tier, rng, boost=1):
             n = rng.randint(1, 5)
             M = [[rng.choice([0, 0, 1, 2, 3, 5]) / rng.choice([1, 2, 4, 8]) for _ in range(n)] for _ in range(n)]
             # memory layout / dtype of the argument: the compiled and the interpreted function must accept the same arrays (an eager numba signature would not)
-            layout = rng.choice(['c', 'c', 'fortran', 'strided', 'readonly', 'int64', 'int32', 'uint8']) if kind == 'rownorm' else rng.choice(['c', 'c', 'fortran', 'strided'])
+            layout = rng.choice(['c', 'c', 'fortran', 'strided', 'readonly', 'int64', 'int32', 'uint8', 'float32']) if kind == 'rownorm' else rng.choice(['c', 'c', 'fortran', 'strided'])
             if layout in ('int64', 'int32', 'uint8'):
                 M = [[float(rng.choice([0, 0, 1, 2, 3, 5, 17])) for _ in range(n)] for _ in range(n)]
             yield {'op': 'utils', 'kind': kind, 'M': M, 'k': rng.randint(0, 6), 'sub': 'utils', 'src': 'rand', 'layout': layout}
@@ -162,7 +162,7 @@ def real(case):
             a = np.repeat(a, 2, axis=1)[:, ::2]
         elif lay == 'readonly':
             a.setflags(write=False)
-        elif lay in ('int64', 'int32', 'uint8'):
+        elif lay in ('int64', 'int32', 'uint8', 'float32'):
             a = a.astype(lay)
         return a
 
@@ -238,6 +238,9 @@ def agree(case, obs, reply):
     if 'err' in o:
         return False
     m = reply['model']['ok']
+    if case.get('layout') == 'float32':
+        # single-precision input: the configurations must agree with each other (checked above, 1e-12); the exact model is only met to single precision
+        return _close(m, o['ok'], Fraction(1, 10 ** 5))
     return _close(m, o['ok'], Fraction(1, 10 ** 9)) if case['kind'] != 'find_first' else m == o['ok']
 
 
